@@ -85,7 +85,7 @@ func r2(a int) (int, string) {
 	n := 0
 	for range ticks {
 		n++
-		if n > a {
+		if n > a&7 {
 			break
 		}
 	}
